@@ -131,7 +131,19 @@ var (
 	lastFail = map[string]*failure{}
 )
 
+// caseErr lets a check substitute a narrower case for the replay file (e.g. the single
+// cancellation point that failed out of the enumerated ones).
+type caseErr struct {
+	error
+	c any
+}
+
+func withCase(err error, c any) error { return &caseErr{err, c} }
+
 func noteFailure(key string, c any, err error) {
+	if ce, ok := err.(*caseErr); ok {
+		c = ce.c
+	}
 	raw, jerr := json.Marshal(c)
 	if jerr != nil {
 		raw, _ = json.Marshal(fmt.Sprintf("%+v", c))
